@@ -34,6 +34,15 @@ def sessions_for(exe, tier, seed):
             params.update(rcvbuf_l=rng.choice([1024, 2000, 70000, 1 << 20]), rcvbuf_r=rng.choice([1024, 4096, 100000, 1 << 20]))
         return P.c09_session(live, rng, origin=org, params=params, random_close=rng.random() < 0.2)
     H = P.gen_parallel(exe, [f"C09/h/{base + i}" for i in range(n)], fn)
+    # loss-free networks whose only adversity is a reader stall that closes the receive window for a while
+    ns = max(n // 4, 8)
+
+    def fs(live, rng):
+        rb = rng.choice([1024, 2048, 4096, 8192, 30000, 61440])
+        return P.c09_stall_session(live, rng, rng.choice([2000, 8000, 14000, 16000, 20000, 25000, 28000]),
+                                   params=dict(rcvbuf_r=rb, rcvbuf_l=rng.choice([4096, 61440]), finack_l=1, finack_r=1,
+                                               sndbuf_l=rng.choice([4096, 65536, 1 << 20])))
+    H = H + P.gen_parallel(exe, [f"C09/s/{base + i}" for i in range(ns)], fs)
     # networks that never heal: only the finite-deadline conjunct applies
     N = P.gen_parallel(exe, [f"C09/n/{base + i}" for i in range(max(n // 6, 4))],
                        lambda live, rng: P.c09_session(live, rng, heal_at=rng.choice([30000, 120000]), never_heal=True))
